@@ -373,7 +373,7 @@ func c07PickInt(r *rand.Rand, xs []int) int { return xs[r.IntN(len(xs))] }
 
 // c07MaxNesting bounds the bracket nesting of every generated body (candidate known finding
 // "JSON key building is quadratic in the nesting depth", notes/findings/C07.md #8).
-const c07MaxNesting = 4096
+const c07MaxNesting = 2048
 
 // c07CapNesting cuts s where its running count of unclosed '[' and '{' would exceed max.
 func c07CapNesting(s string, max int) string {
